@@ -67,6 +67,11 @@ def run(tier, seed, replay=None):
                 s = scenario(rnd, 1000 + j)
                 s.update({"drops": [5 + j], "refuse": 1, "idles": [2], "commands": 20, "budget_ms": 80000, "resume_at": 0})
                 scen.append(s)
+        # target.db set: the source's SELECTs are rewritten by the tool; a batch that ends with one still stores a stream position
+        for j in range(4 if thorough else 1):
+            s = scenario(rnd, 2000 + j)
+            s.update({"target_db": 1, "idles": [3, 7], "idle_ms": 1300, "drops": [], "resume_at": 0, "commands": 20})
+            scen.append(s)
         for i, s in enumerate(scen):
             s["trace"] = sc.path("trace-%d.ndjson" % i)
 
